@@ -408,7 +408,7 @@ func longInputs() []string {
 func TestC12(t *testing.T) {
 	c := begin(t, "C12")
 	defer c.end()
-	c.rec.F.Rule = "strings: the generator mix of C07/C08 for both versions (valid, mutated, single-defect, arbitrary unicode / bytes / alphabet / token soup) at all six decoders through constructor and nil receiver: no panic, exactly one of (object, error) non-nil, then every observer (Score, Severity, GetError, Encode, String, BaseMetrics, TemporalMetrics and the chains through returned sub-objects) on the returned object and on the receiver left behind; thorough adds eight constructed 1-4 MiB inputs and native fuzzing. objects: nil receivers and fresh constructor results of all six types, and the complete one-field-reset enumeration (every exported field of every level set to its unknown/invalid constant) over generated accepted vectors: no panic, and where the version or a metric of the queried level (v2: of a present group) is unknown/invalid: GetError != nil, Encode returns an error, Score == 0. Non-trivial = failed decode leaving a partially filled receiver, or a reset / nil / fresh object; distinct by hash of the case."
+	c.rec.F.Rule = "strings: the generator mix of C07/C08 for both versions (valid, mutated, single-defect, arbitrary unicode / bytes / alphabet / token soup) at all six decoders through constructor and nil receiver: no panic, exactly one of (object, error) non-nil, then every observer (Score, Severity, GetError, Encode, String, BaseMetrics, TemporalMetrics and the chains through returned sub-objects) on the returned object and on the receiver left behind; plus the deterministic hostile shapes of C07 (floods around power-of-two counts, boundary-length tokens, look-alike characters, dense multi-byte text); thorough adds eight constructed 1-4 MiB inputs and native fuzzing. objects: nil receivers and fresh constructor results of all six types, and the complete one-field-reset enumeration (every exported field of every level set to its unknown/invalid constant) over generated accepted vectors: no panic, and where the version or a metric of the queried level (v2: of a present group) is unknown/invalid: GetError != nil, Encode returns an error, Score == 0. Non-trivial = failed decode leaving a partially filled receiver, or a reset / nil / fresh object; distinct by hash of the case."
 	c.rec.F.Assumptions = []string{"v2 IsEmpty() on a nil receiver is not among the queries the property lists and is not called on nil receivers", "zero value of every exported enumeration field is its unknown/invalid constant"}
 
 	// ---- nil and fresh objects ------------------------------------------------------------------
@@ -433,6 +433,16 @@ func TestC12(t *testing.T) {
 				}
 			}
 		}
+	}
+	// ---- hostile shapes ----------------------------------------------------------------------------
+	for _, ver := range []int{3, 2} {
+		forEachShape(ver, func(j int, cs strCase, label string) {
+			if nviol > 0 || !mine(j) {
+				return
+			}
+			c.rec.Case("shapes", cs.key(), !refAccept(cs), shapeClass(label))
+			evalEnum(c, "string", cs, checkC12String, &nviol)
+		})
 	}
 	// ---- field-reset enumeration over generated accepted vectors ------------------------------------
 	c.rapidStage("reset", pick(2000, 100000), func(rt *rapid.T) {
